@@ -39,6 +39,8 @@ def programs():
     out.append({"name": "map-in-par[S.W.S|slow]", "seq": [{"k": "par", "cfg": ac, "branches": [
         [{"k": "map", "items": [1, 2], "cfg": ac, "body": S("m")}, {"k": "wait", "s": 1}, {"k": "step", "fn": {"ret": "after"}}],
         SLOW(4, "slow")]}]})
+    out.append({"name": "shared-context[A|B]", "shared": True, "seq": [{"k": "shared_par", "labels": ["A", "B"]}]})
+    out.append({"name": "shared-context[A|B|C]", "shared": True, "seq": [{"k": "shared_par", "labels": ["A", "B", "C"]}]})
     out.append({"name": "wfc+invoke+W+S", "seq": P.U("N") + P.U("I") + P.U("W") + S(9)})
     out.append({"name": "par[R|W.S]", "seq": [{"k": "par", "cfg": ac, "branches": [P.U("R"), [{"k": "wait", "s": 1}] + S("z")]}]})
     out.append({"name": "first[fast|slow.S]+S", "seq": [{"k": "par", "cfg": {"cc": "first"}, "branches": [S("w"), SLOW(2, "l") + S("l2")]}] + S("after")})
@@ -106,8 +108,10 @@ def idmap_of(d):
                   f"context {fmt_path(pp)} is {path_id[pp][:12]}")
     # index chains: a branch "bN" and the N-th call of a child context are both "index N under
     # that context" (a context is either a map/parallel or a plain child, never both)
+    # (operations issued by racing threads on one shared context get their index in arrival order:
+    #  unique within an execution, but not comparable across executions)
     return {fmt_path(tuple(int(x[1:]) if isinstance(x, str) and x.startswith("b") else x for x in p)): i
-            for p, i in path_id.items()}, viol
+            for p, i in path_id.items() if not str(p[0]).startswith("shared")}, viol
 
 
 def judge(d, _=None):
@@ -149,8 +153,14 @@ def space(tier):
     quick = tier == "quick"
     cap = 30_000 if quick else 600_000
     units = []
+    import aws_durable_execution_sdk_python.threading as _thm
     for p in programs():
         base = {"allow_unmapped": True}
+        if p.get("shared"):
+            # ids are handed out by the ordered counter: one preemption at any line of threading.py
+            units.append(({"program": p, "cfg": dict(base, env_kinds=[], line_files=[_thm.__file__])},
+                          {"thread": 1, "total": 1} if quick else {"thread": 2, "total": 2}, cap))
+            continue
         units.append(({"program": p, "cfg": dict(base, env_kinds=["crash"])}, {"crash": 1, "total": 1}, cap))
         units.append(({"program": p, "cfg": dict(base, env_kinds=[], timer_choices=True)},
                       {"thread": 1, "timer": 1, "total": 1} if quick else {"thread": 2, "timer": 1, "total": 2}, cap))
@@ -181,7 +191,7 @@ def run(ctx):
                               "replay": {"cross_unit": True}})
             rev.setdefault(i, p)
     cov["distinct_positions"] = len(glob)
-    cov["bounds"] = ("16 program shapes (nesting <=3, <=3 branches/items, sibling maps, child-in-branch-in-map, callbacks inside "
+    cov["bounds"] = ("16 program shapes + 2 in which sibling branches issue operations on the enclosing context (shared call counter, line-level preemption in threading.py) (nesting <=3, <=3 branches/items, sibling maps, child-in-branch-in-map, callbacks inside "
                      "branches, max_concurrency, early completion); per shape every single crash point, every schedule with "
                      "<=1 (quick) / <=2 (thorough) deviations, policies rtb/low/high/rr; the relation position->id is "
                      "checked within each execution, across all executions of a unit and across all programs")
